@@ -214,6 +214,11 @@ type fidRef struct {
 	// to return a cyclical reference, and hasParent should be used to
 	// check for root over looking at parent directly.
 	parent *fidRef
+
+	// xattrOrigin is set for fidRefs created by Txattrwalk. Such a fidRef
+	// borrows the File of the fidRef it was walked from: it holds a
+	// reference on the origin instead of owning (and closing) the File.
+	xattrOrigin *fidRef
 }
 
 // IncRef increases the references on a fid.
@@ -224,6 +229,11 @@ func (f *fidRef) IncRef() {
 // DecRef should be called when you're finished with a fid.
 func (f *fidRef) DecRef() error {
 	if atomic.AddInt64(&f.refs, -1) == 0 {
+		if f.xattrOrigin != nil {
+			// The File belongs to the origin; drop our reference on it.
+			return f.xattrOrigin.DecRef()
+		}
+
 		var (
 			errs []error
 			err  = f.file.Close()
